@@ -892,6 +892,136 @@ def prop_fuzz_replay(case):
     return out
 
 
+
+# ------------------------------------------------------------------------------------------
+# fresh processes whose first act is a refused evaluation
+
+
+def _fresh_cases(seed: int, n: int) -> list:
+    import hypothesis
+    from hypothesis import HealthCheck
+    from hypothesis import Phase
+    from hypothesis import given
+    from hypothesis import settings
+
+    out = []
+
+    @hypothesis.seed(seed)
+    @settings(max_examples=n + 4, database=None, deadline=None, phases=[Phase.generate], suppress_health_check=list(HealthCheck))
+    @given(G.models())
+    def collect(c):
+        out.append(c)
+
+    collect()
+    return out[:n]
+
+
+def child_fresh(seed: int, n: int, pick: int, outfile: str):
+    """Runs in a brand-new interpreter.  The first thing this process does with a model is an evaluation that is refused: one
+    referenced parameter is missing and the datasets are filled without validating first (what optimize / simulate do).  Then the
+    parameter and item mutation sub-checks run on the generated cases: validation answers for the model it is given, whatever
+    happened in the process before."""
+    import json
+
+    from glotaran.model.item import fill_item
+
+    cases = _fresh_cases(seed, n)
+    out = {"refused": 0, "evaluations": 0, "failures": [], "discards": 0, "labels_tried": []}
+    with warnings.catch_warnings():
+        warnings.simplefilter("ignore")
+        for c0 in cases[:2]:
+            labels = list(dict.fromkeys(p["label"] for p in positions(c0["spec"]) if p["kind"] == "param"))
+            if not labels:
+                continue
+            lab = labels[pick % len(labels)]
+            out["labels_tried"].append(lab)
+            model, params = _model_and_params(c0, removed=(lab,))
+            for ds in model.dataset:
+                try:
+                    fill_item(model.dataset[ds], model, params)
+                except Exception:  # noqa: BLE001
+                    out["refused"] += 1
+        for i, c in enumerate(cases):
+            for fn in (prop_param_refs, prop_item_refs):
+                try:
+                    fn(c)
+                    out["evaluations"] += 1
+                except Discard:
+                    out["discards"] += 1
+                except Violation as v:
+                    out["evaluations"] += 1
+                    out["failures"].append({"clause": "fresh." + v.clause, "message": v.message[:600], "i": i})
+    with open(outfile, "w") as f:
+        json.dump(out, f)
+
+
+def _spawn_fresh(seed: int, n: int, pick: int, outfile: str):
+    import subprocess
+    import sys
+    from pathlib import Path
+
+    root = str(Path(__file__).resolve().parent.parent.parent)
+    code = f"import sys; sys.path[:0] = {[root, root + '/.deps']!r}; from vlib.props import c20; c20.child_fresh({seed}, {n}, {pick}, {outfile!r})"
+    return subprocess.Popen([sys.executable, "-c", code], cwd=root, stdout=subprocess.PIPE, stderr=subprocess.PIPE)
+
+
+def fresh_custom(tier: str, seed: int):
+    import json
+    import os
+    import tempfile
+
+    from vlib.core import ShardResult
+    from vlib.core import digest
+
+    res = ShardResult()
+    nproc, n = (16, 6) if tier == "quick" else (96, 12)
+    with tempfile.TemporaryDirectory(prefix="c20_fresh_") as tmp:
+        running = []
+        jobs = [(seed * 1000 + k, n, k) for k in range(nproc)]
+        done = 0
+        while jobs or running:
+            while jobs and len(running) < 16:
+                s_, n_, k_ = jobs.pop(0)
+                out = os.path.join(tmp, f"o{k_}.json")
+                running.append((s_, n_, k_, out, _spawn_fresh(s_, n_, k_, out)))
+            s_, n_, k_, out, pr = running.pop(0)
+            so, se = pr.communicate(timeout=3600)
+            if pr.returncode != 0 or not os.path.exists(out):
+                res.errors.append({"sub": "fresh_process", "traceback": se.decode()[-2000:], "case": None})
+                continue
+            r = json.load(open(out))
+            done += 1
+            res.evaluations += r["evaluations"]
+            if r["discards"]:
+                res.discards["base model not valid / no reference"] += r["discards"]
+            res.tags["processes"] += 1
+            if r["refused"]:
+                res.tags["processes_starting_with_a_refused_evaluation"] += 1
+                res.nontrivial.add(digest([s_, k_]))
+            for f in r["failures"]:
+                res.failure_counts[f["clause"]] += 1
+                res.failures.append({"sub": "fresh_process", "clause": f["clause"], "message": f["message"], "case": {"seed": s_, "n": n_, "pick": k_}})
+            if len(res.samples) < 2:
+                res.samples.append({"process_seed": s_, "cases": n_, "first_refused_parameter": r["labels_tried"][:1], "refused_fills": r["refused"]})
+    return res
+
+
+def prop_fresh_replay(case):
+    import json
+    import os
+    import tempfile
+
+    with tempfile.TemporaryDirectory(prefix="c20_fresh_") as tmp:
+        out = os.path.join(tmp, "o.json")
+        pr = _spawn_fresh(case["seed"], case["n"], case["pick"], out)
+        so, se = pr.communicate(timeout=3600)
+        if pr.returncode != 0:
+            raise RuntimeError(se.decode()[-1000:])
+        r = json.load(open(out))
+    for f in r["failures"]:
+        raise Violation(f["clause"], f["message"])
+    return {"nontrivial": bool(r["refused"]), "tags": []}
+
 # ------------------------------------------------------------------------------------------
 # oracle self-check: the position enumerator on a hand-counted specification
 
@@ -986,6 +1116,9 @@ PROPERTY = Property(
         Sub("hist", prop=prop_history, strategy=lambda: G.histories(), budget={"quick": 400, "thorough": 40000},
             doc="one model object + one Parameters object: validate, edit in place (misspell / repair a reference, delete / restore a "
                 "definition, remove / return a parameter, duplicate a unique megacomplex), validate again through any entry point"),
+        Sub("fresh_process", prop=prop_fresh_replay, custom=fresh_custom,
+            doc="brand-new interpreters whose first act is a refused evaluation (a referenced parameter missing, datasets filled without "
+                "validating first); then the parameter / item mutation sub-checks: validation does not depend on what the process did before"),
         Sub("fuzz", prop=prop_fuzz_replay, custom=fuzz_custom,
             doc="thorough tier only: atheris (coverage-guided) via hypothesis.fuzz_one_input on the grammar, all mutation sub-checks"),
     ],
